@@ -665,15 +665,15 @@ def float_of_bits(b):
     return struct.unpack("<d", struct.pack("<Q", b))[0]
 
 
-def gen_float_bits(rng, n):
+def gen_float_bits(rng, n, dense=False):
     out = [0, 1 << 63, 1, 2, (1 << 52) - 1, 1 << 52, (1 << 52) + 1, 0x7FEFFFFFFFFFFFFF, 0x7FEFFFFFFFFFFFFE, 0x0010000000000000, 0x000FFFFFFFFFFFFF,
            bits_of(0.1), bits_of(0.3), bits_of(1e21), bits_of(1e-6), bits_of(1e-7), bits_of(9.999999999999999e20), bits_of(1e22), bits_of(1e23), bits_of(5e-324),
            bits_of(2.0 ** 53), bits_of(2.0 ** 53 + 2), bits_of(2.0 ** 63), bits_of(-2.0 ** 63), bits_of(2.0 ** 64), bits_of(123456789012345680.0), bits_of(4.35), bits_of(0.30000000000000004)]
-    for k in range(-1074, 1024, 37):
+    for k in range(-1074, 1024, 37 if dense else 151):
         out.append(bits_of(2.0 ** k))
         out.append(bits_of(2.0 ** k) + 1)
         out.append(max(1, bits_of(2.0 ** k) - 1))
-    for k in range(-323, 309, 7):
+    for k in range(-323, 309, 7 if dense else 41):
         b = bits_of(float("1e%d" % k))
         out += [b, b + 1, max(1, b - 1)]
     for _ in range(n):
@@ -989,7 +989,7 @@ def run(chk):
     vlib.log("C06 section 5 at %.1fs" % (time.time() - chk.t0))
     vlib.log("C06 section 6 at %.1fs" % (time.time() - chk.t0))
     # ---------------- 6. floats: the ParseFloat model and the float printer contract (assumption checks) ----------------
-    fbits = gen_float_bits(rng, 3000 if thorough else 260)
+    fbits = gen_float_bits(rng, 3000 if thorough else 70, dense=thorough)
     texts = list(dict.fromkeys([t for b in fbits for t in float_texts(rng, b)] + HARD_LITERALS))
     # (a) correctly rounded parsing: model go_parse_float vs strconv.ParseFloat
     resp = vlib.yqh_parallel([{"op": "c06pf", "text": t} for t in texts])
